@@ -88,6 +88,13 @@ def gen_cases(tier: str, seed: int):
                      ["add_column", "DB1", "S1", "T2", "A", "VARCHAR(10)", True], ["add_column", "DB1", "S1", "T2", "F", "VARCHAR(10)", True],
                      ["drop_table", "DB1", "S1", "T1"], ["create_view", "DB1", "S1", "T1", "T2"], ["drop_view", "DB1", "S1", "T1"],
                      ["create_table", "DB1", "S1", "T1", [["A", "INT", False]], None, False, False, False]]}
+    # same table name in three places; the namesakes are dropped / re-created one by one
+    cols = [["A", "VARCHAR(10)", False], ["N", "NUMBER(10,2)", False]]
+    yield {"steps": [["create_table", "DB1", "S1", "T1", cols, "orders of s1", False, False, False], ["create_table", "DB1", "S2", "T1", [["A", "VARCHAR(255)", False]], "of s2", False, False, False],
+                     ["create_table", "DB2", "S1", "T1", [["A", "VARCHAR", False]], "of db2", False, False, False], ["drop_table", "DB1", "S2", "T1"], ["drop_table", "DB2", "S1", "T1"],
+                     ["create_table", "DB1", "S2", "T1", [["B", "INT", False]], None, False, False, True], ["failing_drop_other", "DB2", "S1", "T1", cols],
+                     ["rename_table", "DB1", "S2", "T1", "T9"], ["create_table", "DB2", "S1", "T1", [["A", "VARCHAR(255)", False]], None, False, False, False],
+                     ["drop_table", "DB2", "S1", "T1"], ["comment_on", "DB1", "S2", "T9", "moved"], ["drop_table", "DB1", "S2", "T9"]]}
     for _ in range(n):
         steps = []
         for _ in range(r.randint(5, maxsteps)):
